@@ -66,6 +66,7 @@ class Calc:
         self.bound: set = set(params or [])
         self.method = params is None
         self.rec_name = rec_name
+        self.self_attrs: set = set()  # further attributes of `self` the function may read / assign (`translate_method`)
 
     # ------------------------------------------------------------------ expressions
     def expr(self, e: ast.AST) -> str:
@@ -92,6 +93,8 @@ class Calc:
                 return ".selfLoc"
             if s.startswith("self.config.") and s.count(".") == 2:
                 return f"(.cfg {lstr(e.attr)})"
+            if s.startswith("self.") and s.count(".") == 1 and e.attr in self.self_attrs:
+                return f"(.selfAttr {lstr(e.attr)})"
             if s == "last_action_response.action":
                 return ".itemAction"
             if s == "last_action_response.request":
@@ -143,7 +146,15 @@ class Calc:
                 return f"(.last {self.expr(e.value)})"
             if isinstance(sl, ast.Name) and sl.id in self.bound:
                 return f"(.index {self.expr(e.value)} {self.expr(sl)})"
+            if isinstance(sl, ast.Constant) and isinstance(sl.value, int) and not isinstance(sl.value, bool) and sl.value >= 0:
+                return f"(.index {self.expr(e.value)} {const(sl.value)})"
             raise Unsupported(f"subscript {ast.unparse(e)}")
+        if isinstance(e, ast.BinOp) and isinstance(e.op, (ast.Add, ast.Mult)):
+            return f"({'.add' if isinstance(e.op, ast.Add) else '.mul'} {self.expr(e.left)} {self.expr(e.right)})"
+        if isinstance(e, ast.Call) and isinstance(e.func, ast.Attribute) and e.func.attr == "calculate" and not e.args \
+                and sorted(k.arg for k in e.keywords) == ["last_action_response", "state"] \
+                and all(isinstance(k.value, ast.Name) and k.value.id == k.arg for k in e.keywords) and self.method:
+            return f"(.calcOf {self.expr(e.func.value)})"  # the component is handed this very state and item
         if isinstance(e, ast.BinOp) and isinstance(e.op, ast.Div):
             # sum(map(f, xs)) / len(xs)
             l, r = e.left, e.right
@@ -204,6 +215,8 @@ class Calc:
             return ".selfLoc"
         if s == "last_action_response.reward_info":
             return ".itemRewardInfo"
+        if isinstance(t, ast.Attribute) and s.startswith("self.") and s.count(".") == 1 and t.attr in self.self_attrs:
+            return f"(.selfAttr {lstr(t.attr)})"
         if isinstance(t, ast.Name) and t.id not in ("state", "self", "last_action_response", "NOT_PRESENT_IN_STATE"):
             return f"(.var {lstr(t.id)})"
         raise Unsupported(f"assignment target {s}")
@@ -241,6 +254,15 @@ class Calc:
             b = self.block(s.orelse)
             self.bound = after_a & self.bound  # bound after the `if` only if bound on both branches
             return f"(.ite {c} {a} {b})"
+        if isinstance(s, ast.AugAssign) and isinstance(s.op, ast.Add) and isinstance(s.target, ast.Name) and s.target.id in self.bound:
+            return f"(.assign (.var {lstr(s.target.id)}) (.add (.var {lstr(s.target.id)}) {self.expr(s.value)}))"
+        if isinstance(s, ast.For) and isinstance(s.target, ast.Name) and not s.orelse:
+            it = self.expr(s.iter)
+            before = set(self.bound)
+            self.bound.add(s.target.id)
+            body = self.block(s.body)
+            self.bound = before | {s.target.id}  # names first bound inside the loop body are not relied upon afterwards
+            return f"(.forIn {lstr(s.target.id)} {it}\n    {body})"
         if isinstance(s, ast.Return):
             return f"(.ret {self.expr(s.value) if s.value is not None else '(.const .none)'})"
         raise Unsupported(f"statement {ast.unparse(s)[:80]}")
@@ -260,6 +282,15 @@ class Calc:
 
 def translate_calculate(fn: ast.FunctionDef) -> str:
     return Calc(fn).translate()
+
+
+def translate_method(fn: ast.FunctionDef, self_attrs: List[str]) -> str:
+    """A method `m(self, state, last_action_response)` that is not a component's `calculate`: additionally `for x in e:`, `x += e`,
+    `a + b`, `a * b`, `e[<int>]`, `obj.calculate(state=state, last_action_response=last_action_response)`, and reading / assigning the
+    listed attributes of `self` — `RewardFunction.update`."""
+    c = Calc(fn)
+    c.self_attrs = set(self_attrs)
+    return c.translate()
 
 
 def translate_function(fn: ast.FunctionDef, params: List[str]) -> str:
